@@ -18,7 +18,7 @@
    next to it. *)
 From DtlsV Require Import Lib.Bytes Gen.Generated Codec.C18Comb Codec.C18CombSound
   Codec.C18Rec Codec.C18RecSound Codec.C18Hs Codec.C18HsSound Codec.C18Rec13 Codec.C18Rec13Sound
-  Codec.C18Ext Codec.C18ExtSound Codec.C18Kx Codec.C18KxSound Codec.C18Hello Codec.C18HelloSound Codec.C18Run.
+  Codec.C18Ext Codec.C18ExtSound Codec.C18Kx Codec.C18KxSound Codec.C18Hello Codec.C18HelloSound.
 Open Scope N_scope.
 
 (* ================================================================== the combinator library *)
